@@ -6,6 +6,8 @@ import (
 	"context"
 	"encoding/json"
 	"fmt"
+	"github.com/renbou/grpcbridge/grpcadapter"
+	"google.golang.org/grpc/metadata"
 	"net/http"
 	"net/http/httptest"
 	"os"
@@ -51,11 +53,17 @@ func errPart(w *vc.Writer, r *vc.Rand) {
 		for origin := 0; origin < 4; origin++ { // 0 router, 1 stream creation, 2 target status, 3 target status on a server-streaming call after one message (already written)
 			for det := 0; det < 3; det++ { // 0 none, 1 resolvable, 2 type unknown to the target
 				for _, ov := range overrides {
-					for canc := 0; canc < 4; canc++ {
+					for cancHdr := 0; cancHdr < 8; cancHdr++ {
+						// hdr: the target also sends an allow-listed response header before it fails (origins 2, 3 only): the header is
+						// handed to the client, the status line and the error body must be what they are without it
+						canc4, hdr := cancHdr%4, cancHdr >= 4
+						if hdr && (origin < 2 || det != 0 || ov != 0) {
+							continue
+						}
 						// canc 2, 3: as 0, 1 but negotiated as Server-Sent Events (Accept: text/event-stream) on a server-streaming
 						// method: an error before the first event is still a JSON Status, labelled as such
-						sse := canc >= 2
-						canc := canc % 2
+						sse := canc4 >= 2
+						canc := canc4 % 2
 						if sse && (origin == 0 || ov != 0) {
 							continue
 						}
@@ -99,7 +107,12 @@ func errPart(w *vc.Writer, r *vc.Rand) {
 							conn.Script = []vfake.RespItem{{Kind: vfake.KMsg, Payload: vfake.Flow("first")}, {Kind: vfake.KErr, Status: st}}
 							written = canc == 0
 						}
-						b := webbridge.NewTranscodedHTTPBridge(router, webbridge.TranscodedHTTPBridgeOpts{})
+						opts := webbridge.TranscodedHTTPBridgeOpts{}
+						if hdr {
+							conn.HeaderMD = metadata.Pairs("x-resp", "v")
+							opts.Forwarder = grpcadapter.NewProxyForwarder(grpcadapter.ProxyForwarderOpts{Filter: grpcadapter.NewProxyMDFilter(grpcadapter.ProxyMDFilterOpts{AllowResponseMD: []string{"x-resp"}})})
+						}
+						b := webbridge.NewTranscodedHTTPBridge(router, opts)
 						req := httptest.NewRequest("POST", "/x", strings.NewReader(`{"message":"hi"}`))
 						if sse {
 							req.Header.Set("Accept", "text/event-stream")
